@@ -44,7 +44,7 @@ var DefaultPatterns = []string{
 var DefaultInit = initList()
 
 func initList() []string {
-	out := []string{"io", "io/fs", "io/ioutil", "archive/tar"}
+	out := []string{"io", "io/fs", "io/ioutil", "archive/tar", "unicode/utf8", "strings"}
 	for _, p := range DefaultPatterns {
 		if len(p) > 24 && p[:24] == "github.com/pojntfx/stfs/" {
 			out = append(out, p)
